@@ -51,7 +51,7 @@ Record st := mkSt {
   nodes : list node;       (* node records *)
   alive : list node;       (* nodes whose status key exists *)
   wls : list wl;           (* index = workload number *)
-  holder : option nat;     (* who holds /selfmon/active *)
+  holder : option nat;     (* whose lease the key /selfmon/active is bound to, if the key exists *)
   ws : list wphase;        (* watchers, by number *)
   trace : list tev
 }.
@@ -65,13 +65,16 @@ Inductive event :=
 | ESpawn                         (* a new selfmon process: watcher number = length ws *)
 | EStart (k : nat)               (* run(): first attempt pending *)
 | ERegister (k : nat)            (* StartEphemeral(/selfmon/active) attempt *)
-| EExpire (k : nat)              (* the active lock's lease is lost: ctx cancelled, run() loops *)
+| ELeaseLost (k : nat)           (* the lease of /selfmon/active held by k expires or is revoked: the key vanishes *)
+| EExpire (k : nat)              (* k's keep-alive notices the loss (or its context is cancelled): the session
+                                    ends, unregister revokes k's own lease, run() loops *)
 | EStop (k : nat)                (* selfmon's context is cancelled *)
 | EWatch (k : nat)               (* NodeStatusStream's goroutine establishes the watch *)
 | EInitList (k : nat)
 | EInitRead (k : nat)
 | EDeliver (k : nat)
-| EHandle (k : nat) (j : nat).   (* the j-th pending handler runs SetNode{WorkloadsDown} *)
+| EHandle (k : nat) (j : nat)    (* the j-th pending handler runs SetNode{WorkloadsDown} *)
+| EHandleFail (k : nat) (j : nat). (* ... and SetNode fails (store/lock error): logged, NOT retried *)
 
 Fixpoint memn (i : nat) (l : list nat) : bool :=
   match l with [] => false | x :: t => Nat.eqb x i || memn i t end.
@@ -119,6 +122,10 @@ Definition on_node (n : node) (l : list wl) : list wid := on_node_from n l 0.
 Definition phase (s : st) (k : nat) : wphase := nth k (ws s) Stopped.
 Definition set_phase (s : st) (k : nat) (p : wphase) : st := set_ws s (upd k (fun _ => p) (ws s)).
 
+(* unregister(): k revokes its own lease; a key bound to somebody else's lease stays *)
+Definition release_by (k : nat) (h : option nat) : option nat :=
+  match h with Some k' => if k' =? k then None else h | None => None end.
+
 Definition step (s : st) (e : event) : st :=
   match e with
   | EAddNode n => if memn n (nodes s) then s else set_nodes s (nodes s ++ [n])
@@ -142,14 +149,19 @@ Definition step (s : st) (e : event) : st :=
       | Waiting, None => set_holder (set_phase s k (Active fresh)) (Some k)
       | _, _ => s
       end
+  | ELeaseLost k =>
+      match holder s with
+      | Some k' => if k' =? k then set_holder s None else s
+      | None => s
+      end
   | EExpire k =>
       match phase s k with
-      | Active _ => set_holder (set_phase s k Waiting) None
+      | Active _ => set_holder (set_phase s k Waiting) (release_by k (holder s))
       | _ => s
       end
   | EStop k =>
       match phase s k with
-      | Active _ => set_holder (set_phase s k Stopped) None
+      | Active _ => set_holder (set_phase s k Stopped) (release_by k (holder s))
       | Idle | Waiting => set_phase s k Stopped
       | Stopped => s
       end
@@ -198,6 +210,16 @@ Definition step (s : st) (e : event) : st :=
           end
       | _ => s
       end
+  | EHandleFail k j =>
+      match phase s k with
+      | Active se =>
+          match nth_error (se_tasks se) j with
+          | None => s
+          | Some _ => set_phase s k (Active (mkSe (se_watch se) (se_listed se) (se_init se) (se_queue se)
+                                                  (remove_nth j (se_tasks se))))
+          end
+      | _ => s
+      end
   end.
 
 Definition run (s : st) (evs : list event) : st := fold_left step evs s.
@@ -222,6 +244,18 @@ Fixpoint settle (fuel : nat) (k : nat) (s : st) : st :=
   | 0 => s
   | S f => match next_event s k with Some e => settle f k (step s e) | None => s end
   end.
+(* the same continuation with the first handler failing *)
+Fixpoint settle_failing (fuel : nat) (k : nat) (s : st) (armed : bool) : st :=
+  match fuel with
+  | 0 => s
+  | S f => match next_event s k with
+           | Some (EHandle k' j) =>
+               if armed then settle_failing f k (step s (EHandleFail k' j)) false
+               else settle_failing f k (step s (EHandle k' j)) false
+           | Some e => settle_failing f k (step s e) armed
+           | None => s
+           end
+  end.
 Definition settle_bound (s : st) (k : nat) : nat :=
   match phase s k with
   | Active se => 2 + 2 * (length (nodes s) + length (se_init se)) + 2 * length (se_queue se) + length (se_tasks se)
@@ -242,6 +276,7 @@ Inductive action :=
 | AAddNode (n : node)           (* AddNode + first heartbeat *)
 | AHeartbeat (n : node)
 | ALapse (n : node)
+| ALapseFail (n : node)         (* lapse; the SetNode call of the handler it triggers fails (injected) *)
 | ACreate (n : node)
 | AReport (w : wid) (r h : bool)
 | AStart                        (* a new selfmon starts; runs freely *)
@@ -282,23 +317,23 @@ Fixpoint all_handles (fuel k : nat) (s : st) : st :=
    watchers try to register (lowest number first: the harness starts at most one
    waiting watcher), active ones run to completion; a held watcher takes the lock
    and then sits in its NodeStatusStream call *)
-Definition settle_watcher (held : list nat) (s : st) (k : nat) : st :=
+Definition settle_watcher (held : list nat) (armed : bool) (s : st) (k : nat) : st :=
   let s1 := step s (ERegister k) in
-  if memn k held then s1 else settle (settle_bound s1 k + 8) k s1.
-Definition settle_all (held : list nat) (s : st) : st :=
-  fold_left (settle_watcher held) (seq 0 (length (ws s))) s.
+  if memn k held then s1 else settle_failing (settle_bound s1 k + 8) k s1 armed.
+Definition settle_all (held : list nat) (armed : bool) (s : st) : st :=
+  fold_left (settle_watcher held armed) (seq 0 (length (ws s))) s.
 
 Definition act_events (s : st) (a : action) : list event :=
   match a with
   | AAddNode n => [EAddNode n; EHeartbeat n]
   | AHeartbeat n => [EHeartbeat n]
-  | ALapse n => [ELapse n]
+  | ALapse n | ALapseFail n => [ELapse n]
   | ACreate n => [ECreate n]
   | AReport w r h => [EReport w r h]
   | AStart | AStartHeld => [ESpawn; EStart (length (ws s))]
   | ARelease _ => []
   | AStop k => [EStop k]
-  | AExpire k => [EExpire k]
+  | AExpire k => [ELeaseLost k; EExpire k]
   end.
 Definition held_after (s : st) (held : list nat) (a : action) : list nat :=
   match a with
@@ -327,7 +362,8 @@ Fixpoint agree_from (s : st) (held : list nat) (sls : list slot) : bool :=
       let held' := held_after s held (act sl) in
       let s1 := run s (act_events s (act sl)) in
       (* twice: a watcher stopped in this slot frees the lock for one examined earlier *)
-      let s2 := settle_all held' (settle_all held' s1) in
+      let armed := match act sl with ALapseFail _ => true | _ => false end in
+      let s2 := settle_all held' false (settle_all held' armed s1) in
       obs_eqb (map w_st (wls s2)) (seen sl) && agree_from s2 held' t
   end.
 Definition agree (c : case) : bool := agree_from init [] (slots c).
@@ -357,7 +393,7 @@ Definition ok_step (o : okst) (sl : slot) : okst :=
   let nodes' := match a with AAddNode n => if memn n (o_nodes o) then o_nodes o else o_nodes o ++ [n] | _ => o_nodes o end in
   let alive' := match a with
                 | AAddNode n | AHeartbeat n => if memn n nodes' && negb (memn n (o_alive o)) then n :: o_alive o else o_alive o
-                | ALapse n => remn n (o_alive o)
+                | ALapse n | ALapseFail n => remn n (o_alive o)
                 | _ => o_alive o end in
   let wnode' := match a with
                 | ACreate n => if length (o_wnode o) <? length (seen sl) then o_wnode o ++ [n] else o_wnode o
